@@ -177,7 +177,11 @@ func writeDict(path string, fields []DictField, threshold int) (map[string][]tok
 	}
 	bw.WriteEmptyBlock()
 
-	former := disk.NewBlockFormer("token_table", bw, realBlockThreshold, nil)
+	// The token table is cut into physical blocks by the same rule (flush when the packed
+	// data exceeds the threshold; 16 KiB in production, so that only tables of hundreds of
+	// fields or of long tokens span blocks).  Small thresholds give multi-block tables over
+	// small dictionaries: the loader must not care where the cuts are.
+	former := disk.NewBlockFormer("token_table", bw, min(realBlockThreshold, threshold), nil)
 	names := make([]string, 0, len(table))
 	for n := range table {
 		names = append(names, n)
